@@ -117,10 +117,36 @@ def run_project(run, case, arr, plane, mode, stamped, planar_mask, headings, pre
                      key="project:raised"):
         return
     check_projected(run, case, tr, arr, plane, planar_mask, headings, stamped)
+    # whatever happens to the object afterwards, a second projection stays refused
+    between = []
+    for _ in range(int(prng.integers(0, 4))):
+        op = ["transform", "transform_right", "scale", "reduce", "read", "align_origin", "align", "downsample"][prng.integers(8)]
+        between.append(op)
+        try:
+            if op == "transform":
+                tr.transform(gen.rand_se3(prng, 2.0))
+            elif op == "transform_right":
+                tr.transform(gen.rand_se3(prng, 2.0), right_mul=True, propagate=bool(prng.random() < .5))
+            elif op == "scale":
+                tr.scale(1.5)
+            elif op == "reduce" and tr.num_poses > 1:
+                tr.reduce_to_ids(list(range(0, tr.num_poses, 2)))
+            elif op == "read":
+                gen.age(prng, tr, p=1.0)
+            elif op in ("align_origin", "align") and tr.num_poses >= 3:
+                ref = gen.make_evo(gen.traj_arrays(prng, tr.num_poses, stamp_cls="small"), "se3", stamped)
+                tr.align_origin(ref) if op == "align_origin" else tr.align(ref, correct_scale=bool(prng.random() < .5))
+            elif op == "downsample":
+                tr.downsample(max(1, tr.num_poses - 1))
+        except Exception:
+            pass
+    run.extra.setdefault("ops_between_projections", {})
+    for op in between or ["(none)"]:
+        run.extra["ops_between_projections"][op] = run.extra["ops_between_projections"].get(op, 0) + 1
     out2 = contracts.outcome_of(tr.project, Plane(plane if case["rs"][-1] % 2 else
                                                   ["xy", "xz", "yz"][case["rs"][-1] % 3]))
     run.check(out2[0] == "exc" and isinstance(out2[1], TrajectoryException),
-              "second projection refused", case, "a second projection was not refused: %r" % (out2[1], ),
+              "second projection refused", case, "a second projection (after %s) was not refused: %r" % (between or "nothing", out2[1]),
               key="project:second-accepted")
 
 
